@@ -89,7 +89,7 @@ fn show<T: ToString>(r: &Result<T>) -> String {
 
 macro_rules! impl_run {
     ($name:ident, $body:ident, $u:ty, $i:ty) => {
-        fn $name(op: &Op, r: &mut H263Reader<Cursor<Vec<u8>>>, out: &mut Vec<String>) -> bool {
+        fn $name(op: &Op, r: &mut H263Reader<Trickle>, out: &mut Vec<String>) -> bool {
             match op {
                 Op::Pk(n) => { let x = r.peek_bits::<$u>(*n); out.push(show(&x)); x.is_err() }
                 Op::Rd(n) => { let x = r.read_bits::<$u>(*n); out.push(show(&x)); x.is_err() }
@@ -135,7 +135,7 @@ macro_rules! impl_run {
                 }
             }
         }
-        fn $body(ops: &[Op], r: &mut H263Reader<Cursor<Vec<u8>>>, out: &mut Vec<String>) -> bool {
+        fn $body(ops: &[Op], r: &mut H263Reader<Trickle>, out: &mut Vec<String>) -> bool {
             for op in ops {
                 if $name(op, r, out) {
                     return true;
@@ -151,12 +151,26 @@ impl_run!(run16, body16, u16, i16);
 impl_run!(run32, body32, u32, i32);
 impl_run!(run64, body64, u64, i64);
 
+/// A byte source that may return short reads: at most `max` bytes per `read` call (0 = no limit).
+pub struct Trickle {
+    data: Cursor<Vec<u8>>,
+    max: usize,
+}
+impl std::io::Read for Trickle {
+    fn read(&mut self, buf: &mut [u8]) -> std::io::Result<usize> {
+        let n = if self.max > 0 { buf.len().min(self.max) } else { buf.len() };
+        self.data.read(&mut buf[..n])
+    }
+}
+
 /// `R <W> <hex source> <ops>` -> `R <result> <result> ... rem=<bits>`
+/// The source delivers at most `len % 4` bytes per read call (0 = no limit): the bits a reader delivers do not depend on that.
 pub fn script(a: &[&str]) -> String {
     let w: u32 = a[0].parse().expect("W");
     let src = unhex(a[1]);
     let ops = parse(a.get(2).unwrap_or(&"").as_bytes(), 0).0;
-    let mut r = H263Reader::from_source(Cursor::new(src));
+    let max = src.len() % 4;
+    let mut r = H263Reader::from_source(Trickle { data: Cursor::new(src), max });
     let mut out: Vec<String> = Vec::new();
     for op in &ops {
         match w {
